@@ -799,6 +799,10 @@ DIRECTED = [
     ('unpickle-after-delete', _spec(1, [True]),
      [{'k': 'create', 'cls': 0, 'kw': {'id': 1, 'a0': 5}}, {'k': 'flush'}, {'k': 'pickle', 'o': 0}, {'k': 'delete', 'o': 0}, {'k': 'flush'},
       {'k': 'create', 'cls': 0, 'kw': {'id': 2, 'a0': 5}}, {'k': 'unpickle', 'd': 0}, {'k': 'create', 'cls': 0, 'kw': {'id': 1}}]),
+    # a stale pickle whose primary key now belongs to a NEW (unflushed) object: `assert obj._status_ not in created_or_deleted_statuses`
+    ('unpickle-onto-created', _spec(1, [False]),
+     [{'k': 'create', 'cls': 0, 'kw': {'id': 1, 'a0': 5}}, {'k': 'flush'}, {'k': 'pickle', 'o': 0}, {'k': 'delete', 'o': 0}, {'k': 'flush'},
+      {'k': 'create', 'cls': 0, 'kw': {'id': 1, 'a0': 6}}, {'k': 'unpickle', 'd': 0}, {'k': 'proxy', 'o': 1}]),
     # a stale pickle whose unique value was taken meanwhile: pickle.loads is refused (fine) but `_db_set_` has no undo list
     ('stale-unpickle-conflict', _spec(2, [True, True]),
      [{'k': 'create', 'cls': 0, 'kw': {'id': 1, 'a0': 3, 'a1': 1}}, {'k': 'flush'}, {'k': 'pickle', 'o': 0}, {'k': 'delete', 'o': 0}, {'k': 'flush'},
